@@ -29,8 +29,13 @@ VARIABLES ri, ei,        \* run, next event of the run
           msg, pos,      \* message under the guard / being written, bytes of it accepted by the sink
           fail,          \* the last pipe call failed (error or zero-length write) and send has not returned yet
           flushed,       \* a flush followed the last accepted byte
+          retries,       \* pipe calls made after a failed one within the current send (a bounded retry at position 0 is
+                         \* within C09: "returns an error after a bounded number of pipe calls")
           poisoned
-vars == <<ri, ei, ws, we, msg, pos, fail, flushed, poisoned>>
+vars == <<ri, ei, ws, we, msg, pos, fail, flushed, retries, poisoned>>
+RetryMax == 3
+\* a pipe call is in order when nothing failed, or as a bounded retry while no byte of the message is in the sink
+MayCall == ~fail \/ (pos = 0 /\ retries < RetryMax)
 
 Run == Runs[ri]
 T == TypeOf(Run.id)
@@ -38,11 +43,11 @@ Cap == Run.cap
 Evs == Run.events
 Rest == SubSeq(msg, pos + 1, Len(msg))
 
-Init == ri = 1 /\ ei = 1 /\ ws = 0 /\ we = 0 /\ msg = <<>> /\ pos = 0 /\ fail = FALSE /\ flushed = FALSE /\ poisoned = FALSE
+Init == ri = 1 /\ ei = 1 /\ ws = 0 /\ we = 0 /\ msg = <<>> /\ pos = 0 /\ fail = FALSE /\ flushed = FALSE /\ retries = 0 /\ poisoned = FALSE
 
 NextRun ==
   /\ ei > Len(Evs) /\ ri < Len(Runs)
-  /\ ri' = ri + 1 /\ ei' = 1 /\ ws' = 0 /\ we' = 0 /\ msg' = <<>> /\ pos' = 0 /\ fail' = FALSE /\ flushed' = FALSE /\ poisoned' = FALSE
+  /\ ri' = ri + 1 /\ ei' = 1 /\ ws' = 0 /\ we' = 0 /\ msg' = <<>> /\ pos' = 0 /\ fail' = FALSE /\ flushed' = FALSE /\ retries' = 0 /\ poisoned' = FALSE
 
 Step ==
   /\ ei <= Len(Evs)
@@ -51,44 +56,46 @@ Step ==
             \* alloc: the whole vacancy becomes the guard's buffer
             /\ ~poisoned /\ msg = <<>>
             /\ e.ws = ws /\ e.we = we + e.n /\ e.we = Cap
-            /\ we' = e.we /\ UNCHANGED <<ws, msg, pos, fail, flushed, poisoned>>
+            /\ we' = e.we /\ UNCHANGED <<ws, msg, pos, fail, flushed, retries, poisoned>>
        [] ev.t = "emplaced" ->
             \* the message under the guard: a valid value of the message type, cut to its size(), at the start of the buffer
             /\ ~poisoned /\ ws = 0 /\ we = Cap /\ e.n = Cap
             /\ LET r == Validate(T, e.offered, 0) IN r.ok /\ Size(r.val, T) = Len(e.offered)
-            /\ msg' = e.offered /\ pos' = 0 /\ fail' = FALSE /\ flushed' = FALSE
+            /\ msg' = e.offered /\ pos' = 0 /\ fail' = FALSE /\ flushed' = FALSE /\ retries' = 0
             /\ UNCHANGED <<ws, we, poisoned>>
        [] ev.t = "pipe" /\ e.ev = "write" ->
-            /\ ~poisoned /\ ~fail /\ pos < Len(msg)
+            /\ ~poisoned /\ MayCall /\ pos < Len(msg)
             /\ e.offered = Rest                       \* exactly what the sink has not accepted yet
             /\ e.n >= 1 /\ e.n <= Len(e.offered)
-            /\ pos' = pos + e.n /\ flushed' = FALSE
-            /\ UNCHANGED <<ws, we, msg, fail, poisoned>>
+            /\ pos' = pos + e.n /\ flushed' = FALSE /\ fail' = FALSE
+            /\ retries' = IF fail THEN retries + 1 ELSE retries
+            /\ UNCHANGED <<ws, we, msg, poisoned>>
        [] ev.t = "pipe" /\ e.ev \in {"writezero", "writeerr"} ->
-            /\ ~poisoned /\ ~fail /\ pos < Len(msg)
+            /\ ~poisoned /\ MayCall /\ pos < Len(msg)
             /\ e.offered = Rest
             /\ fail' = TRUE
+            /\ retries' = IF fail THEN retries + 1 ELSE retries
             /\ UNCHANGED <<ws, we, msg, pos, flushed, poisoned>>
        [] ev.t = "pipe" /\ e.ev = "flush" ->
             /\ ~poisoned /\ ~fail /\ pos = Len(msg) /\ msg # <<>>
             /\ flushed' = TRUE
-            /\ UNCHANGED <<ws, we, msg, pos, fail, poisoned>>
+            /\ UNCHANGED <<ws, we, msg, pos, fail, retries, poisoned>>
        [] ev.t = "hook" /\ e.ev = "poison" ->
             /\ fail /\ pos > 0                         \* only a partial message in the sink poisons
             /\ poisoned' = TRUE
-            /\ UNCHANGED <<ws, we, msg, pos, fail, flushed>>
+            /\ UNCHANGED <<ws, we, msg, pos, fail, flushed, retries>>
        [] ev.t = "hook" /\ e.ev = "clear" ->
             /\ ~fail /\ ~poisoned /\ pos = Len(msg) /\ msg # <<>>
             /\ (Run.mode = 1 => flushed)               \* the async sender flushes before it releases the buffer
             /\ ws' = 0 /\ we' = 0
-            /\ UNCHANGED <<msg, pos, fail, flushed, poisoned>>
+            /\ UNCHANGED <<msg, pos, fail, flushed, retries, poisoned>>
        [] ev.t = "ret" /\ e.ev = "ok" ->
             /\ ~fail /\ ~poisoned /\ pos = Len(msg) /\ msg # <<>> /\ we = 0
-            /\ msg' = <<>> /\ pos' = 0
+            /\ msg' = <<>> /\ pos' = 0 /\ retries' = 0
             /\ UNCHANGED <<ws, we, fail, flushed, poisoned>>
        [] ev.t = "ret" /\ e.ev = "err" ->
             /\ fail /\ (poisoned <=> pos > 0)
-            /\ msg' = <<>> /\ pos' = 0 /\ fail' = FALSE
+            /\ msg' = <<>> /\ pos' = 0 /\ fail' = FALSE /\ retries' = 0
             /\ UNCHANGED <<ws, we, flushed, poisoned>>
        [] OTHER -> FALSE
   /\ ei' = ei + 1 /\ UNCHANGED ri
